@@ -238,13 +238,18 @@ def encode_float(float_number: float | None) -> int:
     return encoded_int
 
 
-def decode_number(data_raw: int, bit_offset: int, bit_length: int, signed: bool, resolution: float, min_value: float, max_value: float) -> Optional[float]:
+def decode_number(data_raw: int, bit_offset: int, bit_length: int, signed: bool, resolution: float, min_value: float, max_value: float, offset: float | None = None) -> Optional[float]:
     """
     The function follows specific decoding rules based on the bit length of the number:
     - For numbers using 2 or 3 bits, the maximum value indicates the field is not present (None is returned).
     - For numbers using 4 bits or more, the maximum positive value indicates the field is not present (None is returned).
     """
     number_int = decode_int(data_raw, bit_offset, bit_length)
+
+    # A field with a database Offset uses excess-K notation: the raw number is unsigned and the
+    # offset is added after scaling (e.g. J1939 power: 0 means -2000000000 W)
+    if offset is not None:
+        signed = False
 
     #make it signed using sign extension operation
     if signed:
@@ -264,6 +269,8 @@ def decode_number(data_raw: int, bit_offset: int, bit_length: int, signed: bool,
 
     # adjust resolution
     number_int *= resolution
+    if offset is not None:
+        number_int += offset
 
     # the scaled value is a float product, so a raw value sitting exactly on a range end
     # (e.g. 65532 * 0.1) can land a few ulps outside it; tolerate that rounding error only
@@ -278,7 +285,8 @@ def encode_number(
     value: float | None,
     bit_length: int,
     signed: bool,
-    resolution: float
+    resolution: float,
+    offset: float | None = None
 ) -> int:
     """
     Encodes a number into a bitfield within an integer.
@@ -287,6 +295,10 @@ def encode_number(
     - Applies resolution scaling and sign encoding.
     - Modifies the bits in `data_raw` at the specified offset and returns the new value.
     """
+    # A field with a database Offset (excess-K notation) holds an unsigned number
+    if offset is not None:
+        signed = False
+
     if value is None:
         # Set to "not available" value
         if bit_length == 1:
@@ -297,6 +309,10 @@ def encode_number(
             return (1 << (bit_length - 1)) - 1
         else:
             return (1 << bit_length) - 1
+
+    # Excess-K notation: remove the database Offset
+    if offset is not None:
+        value = value - offset
 
     # Scale using resolution
     number_int = int(round(value / resolution))
